@@ -24,7 +24,20 @@ WHITE = -2
 def gen_problem(rng, tier):
     shapes = [(1, 1), (1, 2), (2, 1), (1, 3), (3, 1), (1, 4), (4, 1), (2, 2), (2, 3), (3, 2), (2, 4), (4, 2), (3, 3), (3, 4), (4, 3)]
     h, w = rng.choice(shapes)
-    p_black = rng.choice([0.0, 0.15, 0.3, 0.5])
+    return _gen(rng, h, w)
+
+
+def extra_program_problems(rng):
+    """Larger boards for the program correspondence only (nothing is enumerated there): one non-square medium board and two
+    with more than 256 cells (a tall and a wide one), same construction as the small boards
+    with a realistic share of black cells."""
+    from . import _loop
+    return [_gen(rng, h, w, p_black=rng.choice([0.15, 0.25])) for h, w in _loop.big_shapes(rng)]
+
+
+def _gen(rng, h, w, p_black=None):
+    if p_black is None:
+        p_black = rng.choice([0.0, 0.15, 0.3, 0.5])
     black = [[rng.random() < p_black for _ in range(w)] for _ in range(h)]
     # a random maximal placement of mutually invisible lights, so that clues derived from it are often satisfiable
     light = [[False] * w for _ in range(h)]
